@@ -66,11 +66,18 @@ func c05Populate(what string, items []string, prefix string) ociregistry.Interfa
 
 // errAfterLister lists what the wrapped registry lists and then delivers an error
 // (a member that fails part-way through its listing).
-type errAfterLister struct{ ociregistry.Interface }
+type errAfterLister struct {
+	ociregistry.Interface
+	err error
+}
 
 var errC05Listing = fmt.Errorf("listing broke off: %w", ociregistry.ErrDenied)
 
-func errAfter(it ociregistry.Seq[string]) ociregistry.Seq[string] {
+// a member whose repository vanishes while it is being listed (say, between two pages of a remote listing): its items so
+// far, then NAME_UNKNOWN - which a unifier must not take for "this member does not know the repository" (F34)
+var errC05Vanished = fmt.Errorf("repository vanished: %w", ociregistry.ErrNameUnknown)
+
+func errAfter(it ociregistry.Seq[string], e error) ociregistry.Seq[string] {
 	return func(yield func(string, error) bool) {
 		ok := true
 		it(func(s string, err error) bool {
@@ -78,15 +85,15 @@ func errAfter(it ociregistry.Seq[string]) ociregistry.Seq[string] {
 			return ok
 		})
 		if ok {
-			yield("", errC05Listing)
+			yield("", e)
 		}
 	}
 }
 func (l errAfterLister) Repositories(ctx context.Context, start string) ociregistry.Seq[string] {
-	return errAfter(l.Interface.Repositories(ctx, start))
+	return errAfter(l.Interface.Repositories(ctx, start), l.err)
 }
 func (l errAfterLister) Tags(ctx context.Context, repo, start string) ociregistry.Seq[string] {
-	return errAfter(l.Interface.Tags(ctx, repo, start))
+	return errAfter(l.Interface.Tags(ctx, repo, start), l.err)
 }
 
 type c05Spec struct {
@@ -130,13 +137,16 @@ func (s c05Spec) build() (ociregistry.Interface, func()) {
 		}
 	}
 	var reg ociregistry.Interface
-	hasUnify, unifyErr := false, false
+	hasUnify, unifyErr, unifyNF := false, false, false
 	for _, layer := range s.stack {
-		if layer == "unify" || layer == "unifyerr" {
+		if layer == "unify" || layer == "unifyerr" || layer == "unifynf" {
 			hasUnify = true
 		}
-		if layer == "unifyerr" {
+		if layer == "unifyerr" || layer == "unifynf" {
 			unifyErr = true
+		}
+		if layer == "unifynf" {
+			unifyNF = true
 		}
 	}
 	if hasUnify {
@@ -153,7 +163,10 @@ func (s c05Spec) build() (ociregistry.Interface, func()) {
 		}
 		var second ociregistry.Interface = c05Populate(s.what, b, prefix)
 		if unifyErr {
-			second = errAfterLister{second} // this member's listing ends in an error after its items
+			second = errAfterLister{second, errC05Listing} // this member's listing ends in an error after its items
+			if unifyNF {
+				second = errAfterLister{second.(errAfterLister).Interface, errC05Vanished}
+			}
 		}
 		reg = ociunify.New(c05Populate(s.what, a, prefix), second, nil)
 	} else {
@@ -161,7 +174,7 @@ func (s c05Spec) build() (ociregistry.Interface, func()) {
 	}
 	for _, layer := range s.stack {
 		switch layer {
-		case "mem", "unify", "unifyerr":
+		case "mem", "unify", "unifyerr", "unifynf":
 		case "debug":
 			reg = ocidebug.New(reg, func(string, ...any) {})
 		case "select":
@@ -429,6 +442,17 @@ func (s c05Spec) expected() string {
 			end = "error" // the listing is complete up to the error, which is delivered last
 			calls = len(vis) + 1
 		}
+		if l == "unifynf" {
+			// the second member (items 1 and 2 of every three) delivered something and then lost the repository: an error;
+			// had it delivered nothing, NAME_UNKNOWN would just mean that it does not know the repository
+			for i, it := range s.items {
+				if i%3 != 0 && it > s.start {
+					end = "error"
+					calls = len(vis) + 1
+					break
+				}
+			}
+		}
 	}
 	if s.k >= 0 && len(vis) >= s.k {
 		vis = vis[:s.k]
@@ -446,7 +470,7 @@ func (*c05) Gen(rng *RNG, tier string) []Case {
 	var cases []Case
 	stacks := []string{"mem", "wire", "wire+wire", "debug", "select", "sub", "unify", "wire+debug", "debug+wire", "select+wire", "wire+select",
 		"sub+wire", "wire+sub", "unify+wire", "sub+select", "select+sub", "unify+select+wire", "sub+wire+wire", "unify+sub",
-		"unifyerr", "unifyerr+debug", "unifyerr+select"}
+		"unifyerr", "unifyerr+debug", "unifyerr+select", "unifynf", "unifynf+debug", "unifynf+select"}
 	// page sizes above ten thousand and more items than that
 	for _, c := range [][3]int{{10050, 20000, 0}, {10050, 20000, 1}, {10001, 10001, 0}, {10000, 10000, 1}} {
 		cases = append(cases, Case{Tag: "big", Lines: []string{fmt.Sprintf("ls big %d %d %d", c[0], c[1], c[2])}})
@@ -461,6 +485,9 @@ func (*c05) Gen(rng *RNG, tier string) []Case {
 	for i := 0; i < n; i++ {
 		what := pick(rng, []string{"repos", "tags"})
 		stack := pick(rng, stacks)
+		if strings.HasPrefix(stack, "unifynf") {
+			what = "repos" // a repository unknown to BOTH members is another matter
+		}
 		ps := pick(rng, []int{1, 2, 3, 4, 5, 0, 1000})
 		count := rng.Intn(3*ps + 2)
 		if ps == 0 || ps == 1000 {
